@@ -150,6 +150,10 @@ def curated_items():
     out.append(D.wf("items_retry", {
         "t1": T(items=2, retry={"count": 1}, next=[dict(when="succeeded", do=["t2"])]),
         "t2": T()}, fates={"t1": A, "t2": ["s"]}))
+    # concurrency given by an expression that evaluates below zero (a literal is rejected by the schema): one at a time
+    out.append(D.wf("items_neg_conc", {
+        "t1": T(items=3, conc=-2, concx=True, next=[dict(when="succeeded", do=["t2"])]), "t2": T()},
+        fates={"t1": A, "t2": ["s"]}))
     # a second branch reaches a running with-items join: 1 target and publishes; the target's own
     # transitions read that variable when it completes (they must see what the execution started with)
     out.append(D.wf("items_join1_late_pub", {
